@@ -178,7 +178,7 @@ int main(int argc, char **argv) {
     if (!H || !P) return 2;
     setvbuf(H, NULL, _IOLBF, 0);
     rs = (unsigned)pseed * 2654435761u + 1;
-    int so = dup(1); int nul = open("/dev/null", 1); fflush(stdout); dup2(nul, 1); dup2(nul, 2);   /* the library logs to stdout/stderr */
+    int so = dup(1); int nul = open("/dev/null", 1); fflush(stdout); dup2(nul, 1); if (!getenv("SCN_KEEP_STDERR")) dup2(nul, 2);   /* the library logs to stdout/stderr; sanitizer reports need stderr */
     (void)so;
     EbSvtAv1EncConfiguration cfg; memset(&cfg, 0, sizeof cfg);
     EbErrorType e = svt_av1_enc_init_handle(&enc, NULL, &cfg);
